@@ -223,6 +223,12 @@ func (i *handler) serveCodecHTML(ctx context.Context, w http.ResponseWriter, r *
 	// TODO: if we ever change behavior for UnixFS dir listings, same changes should be applied here
 	w.Header().Del("Cache-Control")
 
+	// A HEAD request has no block data to render (see serveDefaults): the
+	// headers above are the whole response.
+	if r.Method == http.MethodHead {
+		return true
+	}
+
 	cidCodec := mc.Code(resolvedPath.RootCid().Prefix().Codec)
 	err = assets.DagTemplate.Execute(w, assets.DagTemplateData{
 		GlobalData:           i.getTemplateGlobalData(r, contentPath),
